@@ -5,7 +5,9 @@
    NetworkTables is modelled as a finite map  key -> (topic type, value).
    What is NOT in the model (ntcore behaviour): an existing topic of a
    different type (type conflict), values whose Python type does not fit the
-   topic (pybind rejects them), the network, unpublishing. *)
+   topic and that pybind rejects (the accepted conversions along the numeric
+   tower ARE modelled: entry_value), the network, unpublishing; a class that
+   binds ONE tunable object under two public names (section 12). *)
 From Coq Require Import String Ascii List Bool ZArith NArith.
 Import ListNotations.
 Open Scope string_scope.
@@ -404,6 +406,51 @@ Definition nt_set_default (m : ntmap) (k : string) (ty : ntype) (v : value) : nt
   | None => nt_set m k ty v
   end.
 
+(* What a TYPED entry stores for the Python object handed to it
+   (Topic.getEntry(default), Entry.set(value), Entry.setDefault(value)): the
+   pybind argument conversion of pyntcore follows Python's numeric tower -- a
+   bool is an int, an int (or bool) is accepted where a float is expected and
+   arrives as that float; tuples arrive as lists.  Nothing else is converted
+   here: a float handed to an integer entry, a str to a numeric one ... are
+   rejected by pybind (TypeError) and stay outside the model.
+   (int -> double is exact in the model; the implementation rounds to the
+   nearest double beyond 2^53.) *)
+Definition to_double (s : scalar) : scalar :=
+  match s with
+  | SInt z => SFloat (64 * z)
+  | SBool b => SFloat (if b then 64 else 0)
+  | _ => s
+  end.
+Definition to_integer (s : scalar) : scalar :=
+  match s with
+  | SBool b => SInt (if b then 1 else 0)
+  | _ => s
+  end.
+Definition entry_value (ty : ntype) (v : value) : value :=
+  match ty, canon v with
+  | NDouble, VScalar s => VScalar (to_double s)
+  | NInteger, VScalar s => VScalar (to_integer s)
+  | NDoubleArr, VList l => VList (map to_double l)
+  | NIntegerArr, VList l => VList (map to_integer l)
+  | _, c => c
+  end.
+
+(* "v is a value of the topic's type": a scalar of the element type, resp. a
+   list / tuple of such scalars *)
+Definition ntype_kind (ty : ntype) : bool * base :=
+  match ty with
+  | NBoolean => (false, BBool) | NInteger => (false, BInt) | NDouble => (false, BFloat)
+  | NString => (false, BStr) | NRaw => (false, BBytes) | NStruct n => (false, BStruct n)
+  | NBooleanArr => (true, BBool) | NIntegerArr => (true, BInt) | NDoubleArr => (true, BFloat)
+  | NStringArr => (true, BStr) | NStructArr n => (true, BStruct n)
+  end.
+Definition fits (ty : ntype) (v : value) : bool :=
+  match ntype_kind ty, v with
+  | (false, b), VScalar s => base_eqb (base_of s) b
+  | (true, b), VList l | (true, b), VTuple l => forallb (fun s => base_eqb (base_of s) b) l
+  | _, _ => false
+  end.
+
 (* ------------------------------------------------------------------ *)
 (* 6. Classes, instances, setup_tunables, the descriptor                *)
 (* ------------------------------------------------------------------ *)
@@ -461,7 +508,7 @@ Fixpoint setup_loop (pfx : string) (ds : list (decl * ntype)) (nt : ntmap) (b : 
       if starts_with "_" (d_attr d) then setup_loop pfx r nt b
       else
         let key := key_in pfx (d_subtable d) (d_attr d) in
-        let v := canon (d_default d) in
+        let v := entry_value ty (d_default d) in     (* getEntry(default) / set / setDefault *)
         let nt' := if d_wd d then nt_set nt key ty v else nt_set_default nt key ty v in
         setup_loop pfx r nt' ((d_attr d, (key, ty, v)) :: b)
   end.
@@ -511,7 +558,7 @@ Definition step (w : world) (o : op) : world * event :=
           match bind_get b attr with
           | None => (w, EvErr)
           | Some (key, ty, _) =>
-              (mkworld (nt_set (w_nt w) key ty (canon v)) (w_inst w), EvWrote)
+              (mkworld (nt_set (w_nt w) key ty (entry_value ty v)) (w_inst w), EvWrote)
           end
       end
   | PyRead i attr => (w, py_read w i attr)
@@ -543,7 +590,7 @@ Definition op_writes (w : world) (o : op) (k : string) : option value :=
       | None => None
       | Some bd =>
           match bind_get bd b with
-          | Some (k', _, _) => if String.eqb k' k then Some (canon v) else None
+          | Some (k', ty, _) => if String.eqb k' k then Some (entry_value ty v) else None
           | None => None
           end
       end
@@ -984,3 +1031,183 @@ Definition hier_defined (mro : list classbody) : bool :=
                     | Some _ => true
                     | None => false
                     end) mro.
+
+(* ------------------------------------------------------------------ *)
+(* 12. tunable OBJECTS and the names classes bind them under            *)
+(* ------------------------------------------------------------------ *)
+
+(* A tunable is an OBJECT: created once (tunable[orig](default, subtable=..,
+   writeDefault=..)), it can be bound in the body of any number of classes,
+   under a name of each class's own choosing:
+
+       default_kp = tunable(0.5)
+       class Intake:   intake_kp  = default_kp
+       class Shooter:  shooter_kp = default_kp
+
+   The object carries the default, the subtable, the writeDefault flag and
+   its __orig_class__; it does NOT carry a name.  The only per-object state
+   the library keeps is the slot _topic_type, rewritten by every
+   __set_name__(owner, name) call, i.e. once per class body that binds the
+   object (from __orig_class__, else from the annotation THAT class gives THAT
+   name, else from the default).  setup_tunables takes the NAME from dir(cls)
+   (section 11) and everything else from the object found under it. *)
+Record tobj := mktobj {
+  t_default : value;
+  t_orig : option tyexpr;            (* tunable[H](...) *)
+  t_subtable : option string;
+  t_wd : bool
+}.
+
+(* one line of a class body:  name [: ann] = <object number oid>   or
+   name = <something that is not a tunable> *)
+Inductive obind :=
+| OTun (name : string) (oid : nat) (ann : option rawann)
+| OPlain (name : string).
+
+Definition obind_name (ob : obind) : string :=
+  match ob with OTun n _ _ => n | OPlain n => n end.
+
+(* a program: the tunable objects it creates (object number = position) and
+   its class statements in the order they execute *)
+Record program := mkprog {
+  p_objs : list tobj;
+  p_stmts : list (list obind)
+}.
+
+(* the __set_name__ calls of the whole program, in execution order:
+   (object, the hint that call resolves) *)
+Definition bind_call (objs : list tobj) (ob : obind) : list (nat * option tyexpr) :=
+  match ob with
+  | OTun _ oid ann =>
+      match nth_error objs oid with
+      | Some o => [(oid, set_name_hint (mksrc (t_orig o) ann))]
+      | None => []
+      end
+  | OPlain _ => []
+  end.
+Definition set_name_calls (pr : program) : list (nat * option tyexpr) :=
+  flat_map (flat_map (bind_call (p_objs pr))) (p_stmts pr).
+
+(* the LAST call on an object decides what its _topic_type slot holds when
+   the instances are set up *)
+Fixpoint last_call (l : list (nat * option tyexpr)) (oid : nat) : option (option tyexpr) :=
+  match l with
+  | [] => None
+  | (j, h) :: r =>
+      match last_call r oid with
+      | Some x => Some x
+      | None => if Nat.eqb j oid then Some h else None
+      end
+  end.
+(* the hint behind the object's _topic_type (an object no class body binds
+   keeps what __init__ resolved from the default: no hint) *)
+Definition obj_hint (pr : program) (oid : nat) : option tyexpr :=
+  match last_call (set_name_calls pr) oid with
+  | Some h => h
+  | None => None
+  end.
+
+(* every __set_name__ call of the program returns (else the class statement
+   it belongs to raises and the program does not come up) *)
+Definition prog_defined (pr : program) : bool :=
+  forallb (fun c => match nth_error (p_objs pr) (fst c) with
+                    | Some o => match decl_topic (t_default o) (snd c) with
+                                | Ok _ => true
+                                | _ => false
+                                end
+                    | None => false
+                    end) (set_name_calls pr)
+  && forallb (forallb (fun ob => match ob with
+                                 | OTun _ oid _ => match nth_error (p_objs pr) oid with
+                                                   | Some _ => true | None => false end
+                                 | OPlain _ => true
+                                 end)) (p_stmts pr).
+
+(* what setup_tunables sees when dir(cls) yields the name [n] and
+   getattr(cls, n) the object [oid]: the name comes from the class, the rest
+   from the object *)
+Definition obj_decl (pr : program) (n : string) (oid : nat) : option decl :=
+  match nth_error (p_objs pr) oid with
+  | Some o => Some (mkdecl n (t_default o) (obj_hint pr oid) (t_subtable o) (t_wd o))
+  | None => None
+  end.
+
+Definition obind_member (pr : program) (ob : obind) : option member :=
+  match ob with
+  | OTun n oid _ => option_map MTun (obj_decl pr n oid)
+  | OPlain n => Some (MPlain n)
+  end.
+
+Fixpoint opt_all {A : Type} (l : list (option A)) : option (list A) :=
+  match l with
+  | [] => Some []
+  | None :: _ => None
+  | Some x :: r => match opt_all r with Some r' => Some (x :: r') | None => None end
+  end.
+
+Definition prog_body (pr : program) (b : list obind) : option classbody :=
+  opt_all (map (obind_member pr) b).
+
+(* a class of the program is given by its MRO: the positions of the class
+   statements of cls.__mro__ (the class itself first) *)
+Definition prog_stmts (pr : program) (ixs : list nat) : option (list (list obind)) :=
+  opt_all (map (nth_error (p_stmts pr)) ixs).
+Definition prog_mro (pr : program) (ixs : list nat) : option (list classbody) :=
+  match prog_stmts pr ixs with
+  | Some bs => opt_all (map (prog_body pr) bs)
+  | None => None
+  end.
+
+(* the objects the class resolves its PUBLIC names to (one entry per name) *)
+Fixpoint obody_get (b : list obind) (n : string) : option obind :=
+  match b with
+  | [] => None
+  | ob :: r => if String.eqb (obind_name ob) n then Some ob else obody_get r n
+  end.
+Fixpoint omro_getattr (mro : list (list obind)) (n : string) : option obind :=
+  match mro with
+  | [] => None
+  | b :: r => match obody_get b n with
+              | Some ob => Some ob
+              | None => omro_getattr r n
+              end
+  end.
+Definition resolved_ids (mro : list (list obind)) : list nat :=
+  flat_map (fun n => match omro_getattr mro n with
+                     | Some (OTun _ oid _) => if starts_with "_" n then [] else [oid]
+                     | _ => []
+                     end)
+           (sort_names (dedup (flat_map (map obind_name) mro))).
+Fixpoint nodupb (l : list nat) : bool :=
+  match l with
+  | [] => true
+  | x :: r => negb (existsb (Nat.eqb x) r) && nodupb r
+  end.
+
+(* The tunables of a class of the program, as the loop of setup_tunables
+   meets them.  MODEL BOUNDARY: component._tunables is a dict keyed by the
+   tunable OBJECT, so a class that resolves two public names to one object
+   keeps a single entry for both (the one of the name that comes last in
+   dir(cls); the other entry is dropped and its topic unpublished) -- the
+   binding of section 6 is keyed by attribute name and cannot express that.
+   Such a class is OUTSIDE the model: None.  (None also for a class / object
+   number the program does not have.) *)
+Definition prog_class (pr : program) (ixs : list nat) : option (list decl) :=
+  match prog_stmts pr ixs, prog_mro pr ixs with
+  | Some om, Some mro =>
+      if nodupb (resolved_ids om) then Some (class_members mro) else None
+  | _, _ => None
+  end.
+
+(* setup_tunables(instance i of that class, cname, prefix) *)
+Definition setup_obj (i : nat) (pr : program) (ixs : list nat) (prefix : option string)
+           (cname : string) : option op :=
+  option_map (fun cls => Setup i cls prefix cname) (prog_class pr ixs).
+
+(* for the correspondence: the class, and separately whether it (and the
+   program) is inside the model -- the comparator requires the guard *)
+Definition prog_class_list (pr : program) (ixs : list nat) : list decl :=
+  match prog_class pr ixs with Some cls => cls | None => [] end.
+Definition prog_in_model (pr : program) (classes : list (list nat)) : bool :=
+  prog_defined pr
+  && forallb (fun ixs => match prog_class pr ixs with Some _ => true | None => false end) classes.
